@@ -266,6 +266,7 @@ fn inline_byte_escapes(data: &[u8]) -> Vec<u8> {
         if data[i] == b'\\' && i + 1 < data.len() {
             let c = data[i + 1];
             let (start, radix) = if c == b'x' { (i + 2, 16) } else if (b'0'..=b'7').contains(&c) { (i + 1, 8) } else { (0, 0) };
+            if c == b' ' { i += 2; continue; }
             if radix != 0 {
                 let mut j = start; let mut v: u32 = 0;
                 while j < data.len() && (data[j] as char).to_digit(radix).is_some() && v < 0x10000 { v = v * radix + (data[j] as char).to_digit(radix).unwrap(); j += 1; }
@@ -868,9 +869,11 @@ fn check_inner(line: &str, res: &str, t: &[&str], mut m: Vec<String>) -> Vec<Str
                 && (items.last() == Some(&"none") || api == "v1" || api == "d1")      // the whole input was read
                 && items.iter().all(|i| i.starts_with("val ") || i.starts_with("dat ") || *i == "none") && !res.contains(" X") && !res.contains(" B") {
                 // one recorded class has its own tag: under the Emacs Lisp string syntax a numeric escape \xHH / \ooo with a
-                // value of 0x80..0xFF pushes that byte, which can complete an ill-formed sequence next to it; recognised
-                // by the input being valid UTF-8 once those escapes are replaced by the bytes they denote
-                let class = if ro.as_bytes()[6] == b'1' && std::str::from_utf8(&inline_byte_escapes(&data)).is_ok() { "[numeric escape completes a sequence] " } else { "" };
+                // value of 0x80..0xFF pushes that byte and the escaped blank `\ ` pushes nothing, so either can join an
+                // ill-formed raw sequence to what completes it (exactly the exceptions `hi` and `bl` of the Lean theorem
+                // C17_elisp_input_clause); recognised by the input being valid UTF-8 once those escapes are replaced
+                // by what they denote
+                let class = if ro.as_bytes()[6] == b'1' && std::str::from_utf8(&inline_byte_escapes(&data)).is_ok() { "[escape joins an ill-formed sequence] " } else { "" };
                 m.push(format!("FAIL C17 {}input that is not valid UTF-8 was accepted without an error: {}", class, res.chars().take(120).collect::<String>()));
             }
             for it in &items {
